@@ -94,10 +94,15 @@ impl Database {
                                         change.key,
                                         pendding_conflict.len()
                                     );
-                                    (
-                                        pendding_conflict.last().unwrap().to_string(),
-                                        version + pendding_conflict.len() as i32,
-                                    )
+                                    match pendding_conflict.last() {
+                                        Some(last) => (
+                                            last.to_string(),
+                                            version + pendding_conflict.len() as i32,
+                                        ),
+                                        // marked as in conflict but no record left (e.g. the
+                                        // record was removed): start a new queue
+                                        None => (old_value.to_string(), old_version),
+                                    }
                                 } else {
                                     (old_value.to_string(), old_version)
                                 };
